@@ -4,10 +4,10 @@ CONSTANTS
   Roles = {"r1", "r2"}
   KeyShapes <- SmallShapes
   ClientRoleChoices <- ClientChoicesSmall
-  Peers = {"untrusted", "trusted"}
+  Peers = {"untrusted", "trusted", "neighbour"}
   Xffs = {"none", "one"}
-  TlsIds = {"fp", "ca", "canoeku", "unk", "none"}
-  HdrIds = {"fp", "ca", "canoeku", "unk", "none", "bad"}
+  TlsIds = {"fp", "ca", "canoeku", "unk", "none", "casamekey", "caexpired"}
+  HdrIds = {"fp", "ca", "canoeku", "unk", "none", "bad", "casamekey", "caexpired"}
   Endpoints = {"sign", "getkey", "listkeys"}
   ReqNames = {"ka", "kb", "unknown"}
   Variant = "code"
